@@ -1,6 +1,7 @@
 import Clikit.Drv.Util
 import Clikit.Model.Run
 import Clikit.Model.RunListeners
+import Clikit.Model.Wiring
 /-! Driver entries of the run model: `c04.run` (listeners given in calling order) and `c04.run_regs`
 (listeners given as a registration history with priorities and event names; ordered through the
 dispatcher model, `RunListeners.runWithDispatcher`). -/
@@ -30,6 +31,25 @@ def outcomeOf (j : Json) : R Outcome :=
   | some r => do return .ret (← retOf r)
   | none => do return .raise (← excOf (← field j "raise"))
 
+/-- the object the handler lookup reaches: with the configured handler method (calling it does `h`) or without -/
+def targetOf (j : Json) (h : Outcome) : R Target := do
+  if ← fBool j "has_method" then return .handler h
+  else return .broken (← excOf (← field j "exc"))
+
+/-- the optional field `wiring` of a request: what `set_handler` stored (absent: the handler object itself) -/
+def storedOf (j : Json) (h : Outcome) : R (Option Stored) :=
+  match fOpt j "wiring" with
+  | none => pure none
+  | some w => do
+    match ← fStr w "stored" with
+    | "unset" => return some (.unset (← excOf (← field w "exc")))
+    | "factory" =>
+      match fOpt w "raises" with
+      | some e => return some (.factory (.error (← excOf e)))
+      | none => return some (.factory (.ok (← targetOf w h)))
+    | "object" => return some (.object (← targetOf w h))
+    | k => .error s!"unknown stored kind {k}"
+
 /-- one `add_event_listener(event, listener, priority)`; event names arrive as numbers
 (`RunListeners.preHandle` = 1 is PRE_HANDLE) -/
 def regOf (j : Json) : R RunListeners.Registration := do
@@ -48,7 +68,9 @@ def handle (m : String) (j : Json) : Option (R Json) :=
       let ls ← (← fArr j "listeners").toList.mapM listenerOf
       let h ← outcomeOf (← field j "handler")
       let renderOk ← fBool j "render_ok"
-      let r := run debug resolved ls h (fun _ => renderOk)
+      let r := match ← storedOf j h with
+        | none => run debug resolved ls h (fun _ => renderOk)
+        | some s => runWired debug resolved ls s (fun _ => renderOk)
       return Json.mkObj [("status", jOpt jNat r.status), ("escaped", jOpt jExc r.escaped),
                          ("reported", .bool r.reported), ("calls", jNat r.handlerCalls)]
   | "c04.run_regs" => some do
@@ -59,7 +81,9 @@ def handle (m : String) (j : Json) : Option (R Json) :=
       let regs ← (← fArr j "regs").toList.mapM regOf
       let h ← outcomeOf (← field j "handler")
       let renderOk ← fBool j "render_ok"
-      let r := RunListeners.runWithDispatcher debug resolved regs h (fun _ => renderOk)
+      let r := match ← storedOf j h with
+        | none => RunListeners.runWithDispatcher debug resolved regs h (fun _ => renderOk)
+        | some s => wiredResult s (RunListeners.runWithDispatcher debug resolved regs s.call.1 (fun _ => renderOk))
       return Json.mkObj [("status", jOpt jNat r.status), ("escaped", jOpt jExc r.escaped),
                          ("reported", .bool r.reported), ("calls", jNat r.handlerCalls),
                          ("listener_calls", .arr ((RunListeners.listenerCalls resolved regs).map jNat).toArray),
